@@ -15,22 +15,18 @@ Import ListNotations.
 Theorem C15_uintn_in_range :
   forall fuel n s v s', uintn_fuel fuel n s = Ok v s' -> (v < n)%N.
 Proof. exact uintn_fuel_in_range. Qed.
-Print Assumptions C15_uintn_in_range.
 
 Theorem C15_uintn_zero_panics : forall fuel s, uintn_fuel fuel 0 s = Panic.
 Proof. exact uintn_zero_panics. Qed.
-Print Assumptions C15_uintn_zero_panics.
 
 (* the two bounded loops compute the byte length and the all-ones mask of the bit length of n-1 *)
 Theorem C15_size_loop_is_byte_length :
   forall max, (max < w64)%N -> size_loop 9 max 0 = Some (nbytes max) /\ (nbytes max <= 8)%nat.
 Proof. exact size_loop_spec. Qed.
-Print Assumptions C15_size_loop_is_byte_length.
 
 Theorem C15_mask_loop_is_bit_length :
   forall max, (max < w64)%N -> mask_loop 65 max 0 = Some (N.ones (bits max)) /\ (bits max <= 64)%N.
 Proof. exact mask_loop_spec. Qed.
-Print Assumptions C15_mask_loop_is_bit_length.
 
 (* one loop body: the masked 8-byte little-endian read equals the low b bits of the
    fresh k-byte chunk, whatever the stale bytes behind it are *)
@@ -38,7 +34,6 @@ Theorem C15_attempt_is_low_bits_of_chunk :
   forall chunk stale b, (b <= 8 * N.of_nat (length chunk))%N ->
     N.land (le_val (chunk ++ stale)) (N.ones b) = attempt b (le_num chunk).
 Proof. exact attempt_value. Qed.
-Print Assumptions C15_attempt_is_low_bits_of_chunk.
 
 (* stale_bytes_masked: two generators with the same tape and arbitrary 8-byte buffers
    give the same value and the same remaining tape - for UintN and for every helper *)
@@ -51,7 +46,6 @@ Theorem C15_stale_bytes_masked :
     (forall n m, res_rel (samples n m s1) (samples n m s2)) /\
     (forall n, res_rel (shuffle n s1) (shuffle n s2)).
 Proof. exact all_helpers_ignore_stale_bytes. Qed.
-Print Assumptions C15_stale_bytes_masked.
 
 (* the model of the Go code refines the reference rejection sampler of Spec/RandSpec.v:
    same value, same remaining tape, same tape/fuel exhaustion *)
@@ -59,26 +53,22 @@ Theorem C15_uintn_refines_reference_sampler :
   forall fuel n s, (0 < n)%N -> (n < w64)%N -> length (ubuf s) = 8%nat ->
     forget (uintn_fuel fuel n s) = inl (inl (spec_uintn fuel n (tape s))) /\ buf_ok (uintn_fuel fuel n s).
 Proof. exact uintn_fuel_refines. Qed.
-Print Assumptions C15_uintn_refines_reference_sampler.
 
 (* termination: each attempt accepts more than half of the masked values, and on a finite
    tape the default fuel of [uintn] is never exhausted *)
 Theorem C15_attempt_accepts_more_than_half :
   forall n, (0 < n)%N -> (2 ^ bits (n - 1) < 2 * n)%N.
 Proof. exact accept_more_than_half. Qed.
-Print Assumptions C15_attempt_accepts_more_than_half.
 
 Theorem C15_uintn_never_out_of_fuel :
   forall n s, (n < w64)%N -> length (ubuf s) = 8%nat -> uintn n s <> OutOfFuel.
 Proof. exact uintn_never_out_of_fuel. Qed.
-Print Assumptions C15_uintn_never_out_of_fuel.
 
 (* exact uniformity of one attempt: attempt c = v  <->  c = v + 2^b q, and the explicit
    bijection between [0, 2^(8k-b)) and the chunks c < 2^(8k) that yield v *)
 Theorem C15_attempt_iff :
   forall b c v, attempt b c = v <-> exists q, (c = v + 2 ^ b * q /\ v < 2 ^ b)%N.
 Proof. exact attempt_iff. Qed.
-Print Assumptions C15_attempt_iff.
 
 Theorem C15_uintn_attempt_fibres :
   forall n v, (0 < n)%N -> (v < n)%N ->
@@ -88,7 +78,6 @@ Theorem C15_uintn_attempt_fibres :
     (forall c, (c < 2 ^ k8)%N -> attempt b c = v ->
        (fibre_out b c < 2 ^ (k8 - b))%N /\ fibre_in b v (fibre_out b c) = c).
 Proof. exact uintn_attempt_fibres. Qed.
-Print Assumptions C15_uintn_attempt_fibres.
 
 (* counting corollary: every v < n has exactly 2^(8k-b) preimages among the 256^k chunks *)
 Theorem C15_uintn_attempt_fibre_count :
@@ -96,7 +85,6 @@ Theorem C15_uintn_attempt_fibre_count :
     length (filter (fun c => (attempt (bits (n - 1)) c =? v)%N) (nrange (256 ^ N.of_nat (nbytes (n - 1))))) =
     N.to_nat (2 ^ (8 * N.of_nat (nbytes (n - 1)) - bits (n - 1))).
 Proof. exact uintn_attempt_fibre_count. Qed.
-Print Assumptions C15_uintn_attempt_fibre_count.
 
 (* exact uniformity over all attempts: on tapes made of [length cs] chunks, the involution
    [retarget_tape n v v'] (exchange the low b bits v <-> v' in every chunk) maps the tapes
@@ -116,7 +104,6 @@ Proof.
         (conj (retarget_tape_invol n v v' cs Hn Hv Hv')
               (uintn_value_exchange n buf v v' cs Hn Hw Hb Hv Hv' Hcs)))).
 Qed.
-Print Assumptions C15_uintn_exchange_involution.
 
 (* hence: for every number of attempts [fuel], the number of tapes (fuel chunks of k bytes)
    on which UintN(n) returns v is the same for all v < n *)
@@ -125,7 +112,6 @@ Theorem C15_uintn_exactly_uniform :
     (0 < n)%N -> (n < w64)%N -> length buf = 8%nat -> (v < n)%N -> (v' < n)%N ->
     count_tapes n buf fuel v = count_tapes n buf fuel v'.
 Proof. exact count_tapes_uniform. Qed.
-Print Assumptions C15_uintn_exactly_uniform.
 
 (* ---------------- Permutation / SubPermutation ---------------- *)
 
@@ -134,7 +120,6 @@ Theorem C15_permutation_is_permutation :
     permutation n s = Ok items s' ->
     Permutation items (zrange (Z.to_nat n)) /\ length items = Z.to_nat n.
 Proof. exact permutation_is_perm. Qed.
-Print Assumptions C15_permutation_is_permutation.
 
 (* Permutation(n) = inside-out Fisher-Yates of the choices j_i = UintN(i+1) drawn in order *)
 Theorem C15_permutation_is_fisher_yates_of_draws :
@@ -145,7 +130,6 @@ Theorem C15_permutation_is_fisher_yates_of_draws :
                io_valid 0 (map N.to_nat js) /\ length js = Z.to_nat n /\
                items = io_perm (map N.to_nat js).
 Proof. exact permutation_ok_inv. Qed.
-Print Assumptions C15_permutation_is_fisher_yates_of_draws.
 
 (* choice vectors (j_i <= i) |-> permutations of 0..n-1: into, injective and onto *)
 Theorem C15_choices_to_permutation_bijective :
@@ -155,7 +139,6 @@ Theorem C15_choices_to_permutation_bijective :
                     io_perm js = io_perm js' -> js = js') /\
     (forall p, Permutation p (zrange n) -> exists js, length js = n /\ io_valid 0 js /\ io_perm js = p).
 Proof. exact choices_to_permutation_bijective. Qed.
-Print Assumptions C15_choices_to_permutation_bijective.
 
 Theorem C15_subpermutation_distinct :
   forall n m s l s', (n < Z.of_N w63)%Z -> length (ubuf s) = 8%nat ->
@@ -163,7 +146,6 @@ Theorem C15_subpermutation_distinct :
     (0 <= m <= n)%Z /\ length l = Z.to_nat m /\ NoDup l /\ Forall (fun x => (0 <= x < n)%Z) l /\
     exists items, permutation n s = Ok items s' /\ l = firstn (Z.to_nat m) items.
 Proof. exact subpermutation_ok_inv. Qed.
-Print Assumptions C15_subpermutation_distinct.
 
 (* ---------------- Samples / Shuffle ---------------- *)
 
@@ -177,7 +159,6 @@ Theorem C15_samples_swaps_shape :
     (forall (A : Type) (L : list A), length L = Z.to_nat n ->
        exists L', apply_swaps sw L = Some L' /\ Permutation L L').
 Proof. exact samples_shape. Qed.
-Print Assumptions C15_samples_swaps_shape.
 
 Theorem C15_samples_is_fisher_yates_of_draws :
   forall n m s sw s', (n < Z.of_N w63)%Z -> length (ubuf s) = 8%nat ->
@@ -187,12 +168,10 @@ Theorem C15_samples_is_fisher_yates_of_draws :
                fy_valid (Z.to_nat n) 0 (map N.to_nat js) /\ length js = Z.to_nat m /\
                sw = zpairs (swaps_of 0 (map N.to_nat js)).
 Proof. exact samples_ok_inv. Qed.
-Print Assumptions C15_samples_is_fisher_yates_of_draws.
 
 Theorem C15_shuffle_is_samples_n_n :
   forall n s, (0 <= n)%Z -> shuffle n s = samples n n s.
 Proof. exact shuffle_is_samples. Qed.
-Print Assumptions C15_shuffle_is_samples_n_n.
 
 (* choice vectors (j_i < n - i, i < m) |-> ordered m-samples of a duplicate-free slice:
    into (a permutation of the slice), injective, and onto the n!/(n-m)! ordered samples *)
@@ -207,7 +186,6 @@ Theorem C15_choices_to_sample_bijective :
        exists js R, length js = m /\ fy_valid n 0 js /\
                     apply_swaps (zpairs (swaps_of 0 js)) L = Some R /\ firstn m R = q).
 Proof. exact @choices_to_sample_bijective. Qed.
-Print Assumptions C15_choices_to_sample_bijective.
 
 (* ---------------- arguments, determinism ---------------- *)
 
@@ -220,7 +198,6 @@ Theorem C15_argument_errors :
     (forall n m, (0 <= m)%Z -> (n < m)%Z -> samples n m s = Err E_SAMPLE_GT_POP) /\
     (forall n, (n < 0)%Z -> shuffle n s = Err E_NEG_POPULATION).
 Proof. exact argument_errors. Qed.
-Print Assumptions C15_argument_errors.
 
 (* valid arguments: no error, no panic, no fuel exhaustion; only the tape can run out *)
 Theorem C15_valid_arguments_no_error :
@@ -231,7 +208,6 @@ Theorem C15_valid_arguments_no_error :
     (forall n m, (0 <= m <= n)%Z -> (n < Z.of_N w63)%Z -> ok_or_tape (samples n m s)) /\
     (forall n, (0 <= n < Z.of_N w63)%Z -> ok_or_tape (shuffle n s)).
 Proof. exact valid_arguments_no_error. Qed.
-Print Assumptions C15_valid_arguments_no_error.
 
 (* determinism: the helpers are functions of the generator state (and, by
    C15_stale_bytes_masked, of the tape alone; by C14 the tape is a function of the seed) *)
@@ -241,7 +217,35 @@ Theorem C15_equal_tapes_equal_outputs :
     (forall n m, subpermutation n m s1 = subpermutation n m s2) /\
     (forall n m, samples n m s1 = samples n m s2) /\ (forall n, shuffle n s1 = shuffle n s2).
 Proof. exact equal_states_equal_outputs. Qed.
-Print Assumptions C15_equal_tapes_equal_outputs.
+
+(* one Print Assumptions over all theorems of this file (each costs about a second) *)
+Definition C15_all_theorems :=
+  (@C15_uintn_in_range,
+   @C15_uintn_zero_panics,
+   @C15_size_loop_is_byte_length,
+   @C15_mask_loop_is_bit_length,
+   @C15_attempt_is_low_bits_of_chunk,
+   @C15_stale_bytes_masked,
+   @C15_uintn_refines_reference_sampler,
+   @C15_attempt_accepts_more_than_half,
+   @C15_uintn_never_out_of_fuel,
+   @C15_attempt_iff,
+   @C15_uintn_attempt_fibres,
+   @C15_uintn_attempt_fibre_count,
+   @C15_uintn_exchange_involution,
+   @C15_uintn_exactly_uniform,
+   @C15_permutation_is_permutation,
+   @C15_permutation_is_fisher_yates_of_draws,
+   @C15_choices_to_permutation_bijective,
+   @C15_subpermutation_distinct,
+   @C15_samples_swaps_shape,
+   @C15_samples_is_fisher_yates_of_draws,
+   @C15_shuffle_is_samples_n_n,
+   @C15_choices_to_sample_bijective,
+   @C15_argument_errors,
+   @C15_valid_arguments_no_error,
+   @C15_equal_tapes_equal_outputs).
+Print Assumptions C15_all_theorems.
 
 (* ---------------- non-vacuity ---------------- *)
 
@@ -313,8 +317,10 @@ Example C15_test_all_one_chunk_tapes_n_le_4 :
 Proof. vm_compute. reflexivity. Qed.
 
 Example C15_test_all_two_chunk_tapes_n_3 :
-  map (fun v => N.of_nat (count_tapes 3 (repeat 0xff%N 8) 2 v)) [0; 1; 2; 3]%N = [20480; 20480; 20480; 0]%N.
-Proof. vm_compute. reflexivity. Qed.
+  (let vals := map (uintn_value 3 (repeat 0xff%N 8)) (vectors 256 2) in
+   map (fun v => N.of_nat (length (filter (fun o => opt_is o v) vals))) [0; 1; 2; 3]%N)
+  = [20480; 20480; 20480; 0]%N.
+Proof. vm_cast_no_check (eq_refl [20480; 20480; 20480; 0]%N). Qed.
 
 Definition outcomes {A} (run : prg -> res A) (tapes : list (list N)) : list A :=
   flat_map (fun t => match run (prg0 t) with Ok a _ => [a] | _ => [] end) tapes.
@@ -328,11 +334,11 @@ Definition occurs (l : list (list Z)) (p : list Z) : N := N.of_nat (count_occ li
 
 (* Permutation(3) on all 65536 two-byte tapes: 6 outcomes, each on exactly 128*64 tapes *)
 Example C15_test_permutation_3_all_two_byte_tapes :
-  let outs := outcomes (permutation 3) (vectors 256 2) in
-  let ds := distinct outs in
-  length ds = 6%nat /\ forallb (fun p => N.eqb (occurs outs p) 8192) ds = true /\
-  forallb (is_perm_of_range 3) ds = true.
-Proof. vm_compute. repeat split; reflexivity. Qed.
+  (let outs := outcomes (permutation 3) (vectors 256 2) in
+   let ds := distinct outs in
+   Nat.eqb (length ds) 6 && forallb (fun p => N.eqb (occurs outs p) 8192) ds &&
+   forallb (is_perm_of_range 3) ds) = true.
+Proof. vm_cast_no_check (eq_refl true). Qed.
 
 (* Permutation(4) on all 256 four-byte tapes over the byte alphabet {0,1,2,3} (only the low two
    bits of a byte are used for n <= 4): 24 outcomes, each on exactly 10 tapes *)
